@@ -242,6 +242,7 @@ func runCheck(eng *Engine, prop, tier, verif string, loadS float64, start time.T
 	var samples []map[string]interface{}
 	var violations []*Result
 	knownHit := map[string]*Result{}
+	var deadDeclared []string
 	proved := map[string]bool{}
 	failedFn := map[string]bool{}
 	for _, r := range results {
@@ -250,6 +251,8 @@ func runCheck(eng *Engine, prop, tier, verif string, loadS float64, start time.T
 			nCover++
 			if r.Status == "sat" {
 				nCoverOK++
+			} else if eng.deadByContract(r) {
+				deadDeclared = append(deadDeclared, oblID(r.Obl))
 			} else {
 				violations = append(violations, r)
 				failedFn[r.Obl.Func] = true
@@ -434,7 +437,8 @@ func runCheck(eng *Engine, prop, tier, verif string, loadS float64, start time.T
 			"solver_time_s":            float64(solverMs) / 1000.0,
 			"samples":                  samples,
 			"slowest_obligations":      slowest,
-			"vacuity":                  map[string]int{"covers": nCover, "covers_satisfiable_or_unrefuted": nCoverOK},
+			"vacuity":                  map[string]int{"covers": nCover, "covers_satisfiable_or_unrefuted": nCoverOK, "unreachable_declared_dead": len(deadDeclared)},
+			"declared_dead_code":       deadDeclared,
 			"abstracted":               sortedKeys(abstr),
 			"bit_rewrite_rules_used":   bvRules,
 			"known_finding_obligations": knownL,
@@ -538,4 +542,38 @@ func (e *Engine) contractBacking(k string) string {
 		s += " and the modifies frame"
 	}
 	return s
+}
+
+// deadByContract: an unreachable guard is accepted when the contract of the
+// function declares the code at that position dead (`dead <fragment of the
+// source line>`).
+func (e *Engine) deadByContract(r *Result) bool {
+	if !strings.HasPrefix(r.Obl.Name, "reach/cover") {
+		return false
+	}
+	c := e.cf.Contracts[r.Obl.Func]
+	if c == nil || len(c.Dead) == 0 || r.Obl.Pos.Filename == "" {
+		return false
+	}
+	b, err := os.ReadFile(r.Obl.Pos.Filename)
+	if err != nil {
+		return false
+	}
+	lines := strings.Split(string(b), "\n")
+	if r.Obl.Pos.Line < 1 || r.Obl.Pos.Line > len(lines) {
+		return false
+	}
+	// the statement may span a few lines: look at the line and its two predecessors
+	txt := ""
+	for i := r.Obl.Pos.Line - 3; i < r.Obl.Pos.Line; i++ {
+		if i >= 0 {
+			txt += " " + strings.TrimSpace(lines[i])
+		}
+	}
+	for _, d := range c.Dead {
+		if d != "" && strings.Contains(txt, d) {
+			return true
+		}
+	}
+	return false
 }
